@@ -23,6 +23,27 @@ func sort2(a, b *int) {
 	}
 }
 
+// maOf builds one of the library's moving averages (every type that satisfies trend.Ma) for the
+// strategies whose moving average is an exported interface field. kind 0 is never passed (it
+// means: keep what the constructor installed).
+func maOf(kind, period int) trend.Ma[float64] {
+	switch kind {
+	case 1:
+		return trend.NewSmaWithPeriod[float64](period)
+	case 2:
+		return trend.NewEmaWithPeriod[float64](period)
+	case 3:
+		return trend.NewSmmaWithPeriod[float64](period)
+	case 4:
+		return trend.NewWmaWith[float64](period)
+	case 5:
+		if period >= 4 {
+			return trend.NewHmaWithPeriod[float64](period)
+		}
+	}
+	return trend.NewKamaWith[float64](period, 2, 30)
+}
+
 func maxInt(xs ...int) int {
 	m := xs[0]
 	for _, x := range xs[1:] {
@@ -375,10 +396,17 @@ func base() []Strat {
 			},
 		},
 		{
-			Name: "Tsi", InRegistry: true, Params: []reg.Param{per("first", 25), per("second", 13), per("signal", 12)},
-			Build: func(c reg.Config) strategy.Strategy { return strend.NewTsiStrategyWith(c.P[0], c.P[1], c.P[2]) },
-			Warm:  func(s strategy.Strategy) int { return s.(*strend.TsiStrategy).IdlePeriod() },
-			Doc:   "Signal Line = Ema(12, TSI); when TSI > 0 and TSI > Signal Line, Buy; when TSI < 0 and TSI < Signal Line, Sell",
+			Name: "Tsi", InRegistry: true, Params: []reg.Param{per("first", 25), per("second", 13), per("signal", 12), per("signal_kind", 0)},
+			Fix: func(c *reg.Config) { c.P[3] %= 7 },
+			Build: func(c reg.Config) strategy.Strategy {
+				s := strend.NewTsiStrategyWith(c.P[0], c.P[1], c.P[2])
+				if c.P[3] != 0 {
+					s.Signal = maOf(c.P[3], c.P[2]) // the exported field takes any trend.Ma
+				}
+				return s
+			},
+			Warm: func(s strategy.Strategy) int { return s.(*strend.TsiStrategy).IdlePeriod() },
+			Doc:  "Signal Line = Ema(12, TSI); when TSI > 0 and TSI > Signal Line, Buy; when TSI < 0 and TSI < Signal Line, Sell",
 			Rule: func(s strategy.Strategy, f Fields) []Expect {
 				t := s.(*strend.TsiStrategy)
 				tsi := ind1(t.Tsi.IdlePeriod(), [][]float64{f.C}, func(c cs) <-chan float64 { return t.Tsi.Compute(c[0]) })
@@ -405,10 +433,17 @@ func base() []Strat {
 			},
 		},
 		{
-			Name: "WeightedClose", InRegistry: true, Params: []reg.Param{per("ma", 20)},
-			Build: func(c reg.Config) strategy.Strategy { return strend.NewWeightedCloseStrategyWith(c.P[0]) },
-			Warm:  func(s strategy.Strategy) int { return s.(*strend.WeightedCloseStrategy).Ma.IdlePeriod() },
-			Doc:   "weighted close above its moving average: bullish; below: bearish",
+			Name: "WeightedClose", InRegistry: true, Params: []reg.Param{per("ma", 20), per("ma_kind", 0)},
+			Fix: func(c *reg.Config) { c.P[1] %= 7 },
+			Build: func(c reg.Config) strategy.Strategy {
+				s := strend.NewWeightedCloseStrategyWith(c.P[0])
+				if c.P[1] != 0 {
+					s.Ma = maOf(c.P[1], c.P[0]) // the exported field takes any trend.Ma
+				}
+				return s
+			},
+			Warm: func(s strategy.Strategy) int { return s.(*strend.WeightedCloseStrategy).Ma.IdlePeriod() },
+			Doc:  "weighted close above its moving average: bullish; below: bearish",
 			Rule: func(s strategy.Strategy, f Fields) []Expect {
 				w := s.(*strend.WeightedCloseStrategy)
 				wc := ind1(0, [][]float64{f.H, f.L, f.C}, func(c cs) <-chan float64 { return w.WeightedClose.Compute(c[0], c[1], c[2]) })
@@ -534,8 +569,10 @@ func base() []Strat {
 		{
 			Name: "ChaikinMoneyFlow", InRegistry: true, Params: []reg.Param{per("period", 20)},
 			Build: func(c reg.Config) strategy.Strategy { return svolu.NewChaikinMoneyFlowStrategyWith(c.P[0]) },
-			Warm:  func(s strategy.Strategy) int { return s.(*svolu.ChaikinMoneyFlowStrategy).ChaikinMoneyFlow.IdlePeriod() },
-			Doc:   "Buy when CMF is above 0, Sell when below 0",
+			Warm: func(s strategy.Strategy) int {
+				return s.(*svolu.ChaikinMoneyFlowStrategy).ChaikinMoneyFlow.IdlePeriod()
+			},
+			Doc: "Buy when CMF is above 0, Sell when below 0",
 			Rule: func(s strategy.Strategy, f Fields) []Expect {
 				c := s.(*svolu.ChaikinMoneyFlowStrategy).ChaikinMoneyFlow
 				v := ind1(c.IdlePeriod(), [][]float64{f.H, f.L, f.C, f.V}, func(x cs) <-chan float64 { return c.Compute(x[0], x[1], x[2], x[3]) })
